@@ -124,6 +124,7 @@ UFold3  == <<Shapes3(FALSE), Shapes3(FALSE), Shapes3(TRUE)>>                    
 BuiltinShapes == {M(<<>>), M(1 :> X(0)), M(2 :> X(0)), M((1 :> X(0)) @@ (2 :> X(0))), M(1 :> M(1 :> X(0))),
                   M((1 :> M(1 :> X(0))) @@ (2 :> X(0))), M(1 :> M(1 :> M(1 :> X(0)))), M(1 :> M((1 :> X(0)) @@ (2 :> X(0))))}
 UFoldQ  == <<BuiltinShapes, Shapes3(FALSE), Shapes3(TRUE)>>
+UOrder  == <<{M(1 :> X(0)), M((1 :> X(0)) @@ (2 :> X(0))), M(1 :> M((1 :> X(0)) @@ (2 :> X(0))))}, Shapes3(FALSE), Shapes3(TRUE)>>
 UFold3D == <<BuiltinShapes, Shapes3(TRUE), Shapes3(TRUE)>>                      \* built-in, API document, override
 UFold4  == <<BuiltinShapes, Shapes3(FALSE), Shapes3(FALSE), Shapes3(TRUE)>>     \* built-in, two files, override
 ShapesPathQ == {M(<<>>), M(1 :> X(0)), M(1 :> D(0)), M(1 :> M(1 :> X(0))), M(1 :> M(1 :> M(1 :> X(0)))),
